@@ -40,8 +40,8 @@ Total(sq) == LET RECURSIVE S(_) S(k) == IF k = 0 THEN 0 ELSE sq[k] + S(k - 1) IN
 \* starting from the registers whose label the deviation alters.
 LabelKind == cur.tag.what \in {"input label", "two input labels"}
 AlteredRegs == { cur.tag.devs[k].mut.path[1] : k \in 1..Len(cur.tag.devs) }
-\* (T maps a register to the set of altered input labels its label is offset by; XOR is symmetric difference, so the
-\*  alteration cancels in x XOR x)
+\* (T maps a register to the offset of its label from the honest one, as the set of flipped bits; XOR is symmetric
+\*  difference, so the alteration cancels in x XOR x)
 SymD(A, B) == (A \ B) \cup (B \ A)
 RECURSIVE Taint(_, _, _)
 Taint(k, T, hit) ==
@@ -51,7 +51,10 @@ Taint(k, T, hit) ==
          [] i.op = "A" -> Taint(k + 1, [T EXCEPT ![i.out] = {}], hit \/ T[i.a] # {} \/ T[i.b] # {})
          [] i.op = "X" -> Taint(k + 1, [T EXCEPT ![i.out] = SymD(T[i.a], T[i.b])], hit)
          [] OTHER -> Taint(k + 1, [T EXCEPT ![i.out] = T[i.a]], hit)
-LabelConsumed == Taint(1, [r \in 0..(cur.circ.mr - 1) |-> IF r \in AlteredRegs THEN {r} ELSE {}], FALSE)
+\* (the atoms are the label bits the deviation flips: two labels altered by the SAME offset cancel in their XOR, as they do
+\*  in the evaluator's arithmetic)
+FlippedBits(r) == { cur.tag.devs[k].mut.bit : k \in { j \in 1..Len(cur.tag.devs) : cur.tag.devs[j].mut.path[1] = r } }
+LabelConsumed == Taint(1, [r \in 0..(cur.circ.mr - 1) |-> IF r \in AlteredRegs THEN FlippedBits(r) ELSE {}], FALSE)
 
 ChannelLoss(err) == err \in {"PreprocessingError.ChannelErr.RecvError", "PreprocessingError.ChannelErr.SendError",
                              "ChannelError.RecvError", "ChannelError.SendError"}
